@@ -9,7 +9,7 @@
 (* converted (ToPython) and converted back (FromPython).  The conversions as  *)
 (* the code performs them (prefix M) are checked against the declarative ones (D).  *)
 EXTENDS Naturals, Sequences, FiniteSets, TLC, Json
-CONSTANTS MaxPer, Emit, Variant   \* Variant: "pinned" = generic.rs at the pinned snapshot, "fixed" = after the fix: commit
+CONSTANTS MaxPer, MaxKw, Emit, Variant   \* Variant: "pinned" = generic.rs at the pinned snapshot, "fixed" = after the fix: commit
 
 VARIABLES sig, phase, py, back
 vars == <<sig, phase, py, back>>
@@ -32,7 +32,7 @@ AddArg(d) == /\ phase = "build" /\ Len(sig.ar) < MaxPer /\ sig.va = "" /\ sig.ko
 SetVararg == /\ phase = "build" /\ sig.va = "" /\ sig.ko = <<>> /\ sig.kw = ""
              /\ sig' = [sig EXCEPT !.va = "v"] /\ UNCHANGED <<phase, py, back>>
 \* keyword-only parameters may carry defaults in any pattern
-AddKwOnly(d) == /\ phase = "build" /\ Len(sig.ko) < MaxPer /\ sig.kw = ""
+AddKwOnly(d) == /\ phase = "build" /\ Len(sig.ko) < MaxKw /\ sig.kw = ""
                 /\ sig' = [sig EXCEPT !.ko = Append(@, P("k" \o ToString(Len(@) + 1), IF d THEN 30 + Len(@) + 1 ELSE 0))]
                 /\ UNCHANGED <<phase, py, back>>
 SetKwarg == /\ phase = "build" /\ sig.kw = ""
